@@ -292,9 +292,35 @@ func c09Check(w *World) []Violation {
 			case "Pending", "Launching", "Restarting", "Terminating":
 				if !alive && (!anyAlive || st.Status != "Pending") {
 					// Pending with other processes alive may legitimately still be waiting
+					// (the recorded finding is about an instance that was stopped before it ever launched a command:
+					// no command of the process was alive when it entered the state it is stuck in)
 					how := ""
-					if findEvent(tr, 0, func(e Event) bool { return e.Kind == "start" && e.Proc == key0(name) }) >= 0 {
-						how = ":had-a-command" // (the recorded finding is about processes that never launched one)
+					enteredAt := -1
+					for i, e := range tr {
+						if e.Kind == "state" && e.Proc == name {
+							if e.Data == st.Status && (enteredAt < 0 || statusAt(tr, name, i) != st.Status) {
+								enteredAt = i
+							}
+						}
+					}
+					aliveThen := 0
+					for i := 0; i < enteredAt; i++ {
+						if tr[i].Proc == key0(name) && tr[i].Kind == "start" {
+							aliveThen++
+						} else if tr[i].Proc == key0(name) && tr[i].Kind == "exit" {
+							aliveThen--
+						}
+					}
+					everStarted := findEvent(tr, 0, func(e Event) bool { return e.Kind == "start" && e.Proc == key0(name) }) >= 0
+					switch {
+					case aliveThen > 0:
+						how = ":had-a-command"
+					case everStarted && st.Status == "Terminating" && findEvent(tr, 0, func(e Event) bool {
+						return e.Kind == "api-call" && (e.Data == "start("+name+")" || e.Data == "restart("+name+")")
+					}) < 0:
+						// never started or restarted by hand, so it is not a new pending instance: the stop request came
+						// when the only command had just gone
+						how = ":after-exit"
 					}
 					vs = append(vs, viol("C09", "stuck-transient:"+st.Status+how, "process %s stays %s although it has no command alive and nothing left to wait for (outcome %s)", name, st.Status, w.Outcome))
 				}
